@@ -32,6 +32,55 @@ pub fn call(op: &str, e: &Ev) -> Option<Out> {
             cryptoxide::scrypt::scrypt(&get_bytes(e, "pw"), &get_bytes(e, "salt"), &params, &mut out);
             Out::Val(out)
         }
+        "argon2_built" | "argon2_geometry" | "argon2_index_alpha" => {
+            // parameters produced by an arbitrary sequence of setter calls: [{"k": "p"|"m"|"t"|"v", "v": limbs}, ...]
+            use cryptoxide::kdf::argon2::{argon2_at, verif_geometry, verif_index_alpha, InvalidParam, Params};
+            let mut params = match get_usize_or(e, "type", 2) {
+                0 => Params::argon2d(),
+                1 => Params::argon2i(),
+                _ => Params::argon2id(),
+            };
+            for st in e.get("setters").and_then(|v| v.as_array()).cloned().unwrap_or_default() {
+                let st = st.as_object().expect("harness: setter").clone();
+                let v = get_limbs_u64(&st, "v") as u32;
+                let r = match get_str(&st, "k") {
+                    "p" => params.parallelism(v),
+                    "m" => params.memory_kb(v),
+                    "t" => params.iterations(v),
+                    "v" => params.version(v),
+                    k => panic!("harness: unknown setter {}", k),
+                };
+                params = match r {
+                    Ok(p) => p,
+                    Err(err) => {
+                        return Some(Out::Refused(match err {
+                            InvalidParam::ParallelismZero => 1,
+                            InvalidParam::ParallelismTooHigh => 2,
+                            InvalidParam::IterationsZero => 3,
+                            InvalidParam::UnknownVersion => 4,
+                            InvalidParam::MemoryTooHigh => 5,
+                        }))
+                    }
+                };
+            }
+            match op {
+                "argon2_geometry" => {
+                    let (a, b, c, d) = verif_geometry(&params);
+                    Out::Val([a, b, c, d].iter().flat_map(|x| x.to_le_bytes()).collect())
+                }
+                "argon2_index_alpha" => {
+                    let j1 = get_limbs_u64(e, "j1") as u32;
+                    let r = verif_index_alpha(&params, get_usize(e, "pass") as u32, get_usize_or(e, "lane", 0) as u32, get_usize(e, "slice") as u32,
+                                              get_usize(e, "index") as u32, j1, get_usize(e, "same") == 1);
+                    Out::Val(r.to_le_bytes().to_vec())
+                }
+                _ => {
+                    let mut tag = vec![0xa5u8; get_usize(e, "n")];
+                    argon2_at(&params, &get_bytes(e, "pw"), &get_bytes(e, "salt"), &get_bytes(e, "key"), &get_bytes(e, "aad"), &mut tag);
+                    Out::Val(tag)
+                }
+            }
+        }
         "argon2" => {
             use cryptoxide::kdf::argon2::{argon2, argon2_at, Params};
             let base = match get_usize(e, "type") {
